@@ -30,6 +30,7 @@ var commands = map[string]func(args map[string]string){
 	"caster":    cmdCaster,
 	"retry":     cmdRetry,
 	"attempt":   cmdAttempt,
+	"context":   cmdContext,
 }
 
 // usage: harness <driver> -k v -k v ...
